@@ -516,8 +516,9 @@ func (p *parser) processCtl(nodes []node, root *node, ctl []byte, pos int) ([]no
 			root.loopCntInit = m[2]
 			root.loopCntStatic = isStatic(m[2])
 			root.loopCondOp = p.parseOp(m[3])
-			root.loopLim = m[4]
-			root.loopLimStatic = isStatic(m[4])
+			// The bound ends at the semicolon: blanks in front of it are not part of it.
+			root.loopLim = bytealg.Trim(m[4], space)
+			root.loopLimStatic = isStatic(root.loopLim)
 			root.loopCntOp = p.parseOp(m[5])
 			if len(m) > 5 {
 				root.loopSep = m[6]
